@@ -1,46 +1,81 @@
 (* C14 — the custom operation builder emits valid, faithful, history-free documents.
-   Property theorems only; proofs live in Proofs/BuilderP.v, the model in Model/Builder.v. *)
+   Property theorems only; proofs live in Proofs/BuilderP.v, the model in Model/Builder.v
+   (the model describes /repo AFTER the seven builder fixes 54e286b..0e87b8b). *)
 From Coq Require Import List String Ascii Bool ZArith.
 From AC Require Import Base.Json Model.Builder Proofs.BuilderP.
 Import ListNotations.
 Local Open Scope string_scope.
 
-(* ---- full statements ------------------------------------------------------------------- *)
-(* doc_valid + values_bound: whenever the operation [es] can be built after the history [hist],
-   its request — every $variable replaced by (declared type, bound value) — IS the request the
-   expression stands for: GraphQL field/argument names, every variable declared with the
-   argument's exact type and bound to the caller's (serialised) value, None arguments omitted. *)
+(* ---- full statements -------------------------------------------------------------------- *)
+(* doc_valid + values_bound, with NO guard: whenever the operation [es] can be built after the
+   history [hist], its request — every $variable replaced by (declared type, bound value) — IS the
+   request the expression stands for *)
 Definition C14_faithful_full : Prop := forall ct fuel hist es b,
   faithful_on ct fuel hist es = Some b -> b = true.
 (* history_free: the request of an expression is the same from every reachable store *)
 Definition C14_history_free_full : Prop := forall ct fuel hist st es,
   run_hist ct fuel (store0 ct) hist = Some st ->
   option_map snd (run_op ct fuel st es) = option_map snd (run_op ct fuel (store0 ct) es).
-(* every variable name of the whole operation (all top-level fields) is handed out once *)
-Definition C14_unique_across_fields_full : Prop := forall fuel st ns st' sns,
-  build_sels fuel 0 st ns = Some (st', sns) ->
-  NoDup (flat_map (fun r : sel string * node => sel_vars (fst r)) sns).
 
-(* ---- proved at full strength ------------------------------------------------------------ *)
-(* _format_variable_name: the while loop ends (within |used|+1 rounds) with an unused name *)
+(* ---- the generated class table (every schema, every configuration) ---------------------- *)
+(* names_graphql: every generated field object is constructed with its GraphQL name *)
+Theorem C14_names_graphql : forall c s owner f,
+  fm_emit (field_meta c s owner f) = fd_name f /\ fm_emit (root_field_meta c s f) = fd_name f.
+Proof.
+  intros. split; [|reflexivity]. unfold field_meta.
+  destruct (kind_of s (final_name (fd_type f))); reflexivity.
+Qed.
+Print Assumptions C14_names_graphql.
+(* type_exact: the "type" string of every argument is its exact GraphQL type, wrappers included *)
+Theorem C14_type_exact : forall c a, am_type (arg_meta c a) = exact_string (a_type a).
+Proof. reflexivity. Qed.
+Theorem C14_class_table_wf : forall c s q m, wf_ct (gen_classes c s q m).
+Proof. exact gen_classes_wf. Qed.
+Print Assumptions C14_class_table_wf.
+(* none_omitted + values_bound + type_exact for one classmethod call, any arguments: the variables
+   put on the object are the ideal ones (exact type, caller's serialised value, None omitted) *)
+Theorem C14_call_exact : forall c l args,
+  call_vars (map (arg_meta c) l) args = ideal_vars (map (arg_meta c) l) args.
+Proof. intros. apply call_vars_exact. apply arg_metas_wf. Qed.
+Print Assumptions C14_call_exact.
+
+(* ---- variable names ---------------------------------------------------------------------- *)
 Theorem C14_fresh_name_total : forall idx v used, exists u, format_variable_name idx v used = Some u.
 Proof. exact format_variable_name_total. Qed.
 Print Assumptions C14_fresh_name_total.
 Theorem C14_fresh_name : forall idx v used u, format_variable_name idx v used = Some u -> ~ In u used.
 Proof. exact format_variable_name_fresh. Qed.
 Print Assumptions C14_fresh_name.
+(* unique ACROSS all top-level fields of an operation, for ANY object graph and store (shared
+   objects included): the variable names occurring in the document are pairwise distinct *)
+Theorem C14_unique_var_names_operation : forall fuel st ns st' sns,
+  build_sels fuel 0 st ns = Some (st', sns) -> NoDup (op_vars sns).
+Proof. exact unique_var_names_operation. Qed.
+Print Assumptions C14_unique_var_names_operation.
 
-(* to_ast of one top-level field, ANY object graph, any store (shared objects included): the
-   variable names occurring in the AST are pairwise distinct — the used-names set as invariant *)
-Theorem C14_unique_var_names : forall fuel idx st n s' sl n',
-  to_ast fuel idx (st, []) n = Some (s', (sl, n')) -> NoDup (sel_vars sl).
-Proof. exact unique_var_names. Qed.
-Print Assumptions C14_unique_var_names.
+(* ---- the composed theorem --------------------------------------------------------------- *)
+(* For every schema and configuration, every history and every operation in which alias()/on() is
+   never applied to a class-level shared object (g_shared — the one open finding class), whenever
+   the operation builds and the expression denotes a request at all:
+   (1) the request resolves to the ideal request: GraphQL field and argument names, every variable
+       declared with the argument's exact type and bound to the caller's (serialised) value, None
+       arguments omitted, at every depth;
+   (2) no variable is declared twice; (3) the declared variables are exactly the variables used in
+       the document, in document order; (4) exactly the declared variables are bound. *)
+Theorem C14_doc_valid : forall c s q m fuel f2 hist st es st' rq idl,
+  let ct := gen_classes c s q m in
+  Forall (fun es => forallb g_shared es = true) hist -> forallb g_shared es = true ->
+  run_hist ct fuel (store0 ct) hist = Some st ->
+  run_op ct fuel st es = Some (st', rq) -> ideal_sels ct f2 es = Some idl ->
+  resolves (look_req rq) (r_sels rq) = Some idl /\
+  NoDup (keys (r_vardefs rq)) /\
+  keys (r_vardefs rq) = flat_map sel_vars (r_sels rq) /\
+  keys (r_values rq) = keys (r_vardefs rq).
+Proof. intros. eapply doc_valid; eauto. apply gen_classes_wf. Qed.
+Print Assumptions C14_doc_valid.
 
-(* ---- proved under guards (guards = complements of the finding classes) ------------------- *)
-(* history freedom: after ANY history in which alias()/on() was never applied to a class-level
-   shared object (g_shared), every operation — guarded or not — yields the request it yields
-   right after import *)
+(* history freedom: after ANY history free of shared mutations every operation — guarded or not —
+   yields the request it yields right after import *)
 Theorem C14_history_free_partial : forall ct fuel hist st es,
   Forall (fun es => forallb g_shared es = true) hist ->
   run_hist ct fuel (store0 ct) hist = Some st ->
@@ -48,59 +83,7 @@ Theorem C14_history_free_partial : forall ct fuel hist st es,
 Proof. exact history_free_safe. Qed.
 Print Assumptions C14_history_free_partial.
 
-(* one classmethod call: if every argument passed has a type string equal to its exact type
-   (g_types) and no None reaches serialize() (g_ser), the variables put on the object are exactly
-   the ideal ones: exact type, caller's serialised value, None omitted *)
-Theorem C14_call_exact_partial : forall args ams,
-  forallb (arg_ok args) ams = true -> call_vars ams args = ideal_vars ams args.
-Proof. exact call_vars_exact. Qed.
-Print Assumptions C14_call_exact_partial.
-
-(* ---- refutations on the faithful model: one witness per defect class; on each witness every
-   OTHER guard holds, so the classes are independent -------------------------------------- *)
-Definition guards5 (e : bexpr) :=
-  (g_shared e, g_names Demo.ct e, g_types Demo.ct e, g_ser Demo.ct e, g_depth Demo.ct 2 e).
-
-(* [ID!]! declared as ID!  (list wrappers dropped from the "type" string) *)
-Theorem C14_type_exact_refuted :
-  faithful_on Demo.ct 64 [] [Demo.e_types] = Some false /\
-  guards5 Demo.e_types = (true, true, false, true, true).
-Proof. vm_compute. split; reflexivity. Qed.
-
-(* best_friend emitted for bestFriend  (Python name passed to the constructor of method fields) *)
-Theorem C14_names_graphql_refuted :
-  faithful_on Demo.ct 64 [] [Demo.e_names] = Some false /\
-  guards5 Demo.e_names = (true, false, true, true, true).
-Proof. vm_compute. split; reflexivity. Qed.
-
-(* $a_0 used at depth 4, never declared  (get_formatted_variables discards the recursive result) *)
-Theorem C14_vars_collected_refuted :
-  faithful_on Demo.ct 64 [] [Demo.e_depth] = Some false /\
-  guards5 Demo.e_depth = (true, true, true, true, false).
-Proof. vm_compute. split; reflexivity. Qed.
-
-(* friend(since: None) is sent as since: serialize(None)  (cleared_arguments tests the wrapped value) *)
-Theorem C14_none_omitted_refuted :
-  faithful_on Demo.ct 64 [] [Demo.e_ser] = Some false /\
-  guards5 Demo.e_ser = (true, true, true, false, true).
-Proof. vm_compute. split; reflexivity. Qed.
-
-(* two top-level fields: $a_0_1 handed out twice (field 0: second `a`; field 1: `a_0`), x(a: 5)
-   is bound to 3; all five per-expression guards hold *)
-Theorem C14_values_bound_refuted :
-  faithful_on Demo.ct 64 [] Demo.es_collide = Some false /\
-  map guards5 Demo.es_collide = [(true, true, true, true, true); (true, true, true, true, true)].
-Proof. vm_compute. split; reflexivity. Qed.
-Theorem C14_unique_across_fields_refuted_witness : exists st' sns,
-  build_sels 64 0 (store0 Demo.ct) Demo.ns_collide = Some (st', sns) /\
-  nodupb (flat_map (fun r : sel string * node => sel_vars (fst r)) sns) = false.
-Proof. eexists. eexists. split; vm_compute; reflexivity. Qed.
-Theorem C14_unique_across_fields_refuted : ~ C14_unique_across_fields_full.
-Proof.
-  intro H. destruct C14_unique_across_fields_refuted_witness as [st' [sns [Hb Hn]]].
-  apply H in Hb. apply NoDup_nodupb in Hb. congruence.
-Qed.
-
+(* ---- what stays refuted: F15-shared-mutation -------------------------------------------- *)
 (* alias() on the class-level object PersonFields.id persists into the next operation *)
 Theorem C14_history_free_refuted_alias : exists st,
   run_hist Demo.ct 64 (store0 Demo.ct) Demo.h_alias = Some st /\
@@ -118,7 +101,6 @@ Theorem C14_history_free_refuted_on : exists st,
   option_map snd (run_op Demo.ct 64 st [Demo.e_on]) <>
   option_map snd (run_op Demo.ct 64 (store0 Demo.ct) [Demo.e_on]).
 Proof. eexists. split; [vm_compute; reflexivity|]. vm_compute. discriminate. Qed.
-
 Theorem C14_history_free_full_refuted : ~ C14_history_free_full.
 Proof.
   intro H. destruct C14_history_free_refuted_alias as [st [Hr [Hne _]]].
@@ -126,21 +108,29 @@ Proof.
 Qed.
 Theorem C14_faithful_full_refuted : ~ C14_faithful_full.
 Proof.
-  intro H. specialize (H Demo.ct 64 [] [Demo.e_types] false).
+  intro H. specialize (H Demo.ct 64 Demo.h_alias [Demo.e_plain] false).
   assert (false = true) by (apply H; vm_compute; reflexivity). discriminate.
 Qed.
 Print Assumptions C14_faithful_full_refuted.
 
-(* ---- non-vacuity ------------------------------------------------------------------------ *)
-(* a two-field operation with aliases, a serialised scalar, sub-selections and five variables on
-   which every guard holds: it is faithful, also after itself as history *)
-Example C14_guards_satisfiable :
-  map guards5 Demo.es_good = [(true, true, true, true, true); (true, true, true, true, true)] /\
+(* ---- non-vacuity and regression cases ---------------------------------------------------- *)
+(* the witnesses of the seven repaired classes are faithful now *)
+Example C14_repaired_witnesses :
+  map (fun e => faithful_on Demo.ct 64 [] [e]) [Demo.e_types; Demo.e_names; Demo.e_depth; Demo.e_ser]
+  = [Some true; Some true; Some true; Some true] /\
+  faithful_on Demo.ct 64 [] Demo.es_collide = Some true.
+Proof. vm_compute. split; reflexivity. Qed.
+(* the hypotheses of C14_doc_valid are met by a two-field operation with aliases, a serialised
+   scalar, sub-selections and five variables, also after itself as history *)
+Example C14_doc_valid_hypotheses_satisfiable :
+  forallb g_shared Demo.es_good = true /\
   faithful_on Demo.ct 64 [Demo.es_good; Demo.es_good] Demo.es_good = Some true /\
-  option_map (fun r => List.length (r_vardefs (snd r))) (run_op Demo.ct 64 (store0 Demo.ct) Demo.es_good) = Some 5.
-Proof. vm_compute. repeat split. Qed.
-(* the loop really renames: the second `a` of field 0 becomes a_0_1 *)
+  option_map (fun r => List.length (r_vardefs (snd r))) (run_op Demo.ct 64 (store0 Demo.ct) Demo.es_good) = Some 5 /\
+  (exists l, ideal_sels Demo.ct 64 Demo.es_good = Some l).
+Proof. vm_compute. repeat split. eexists. reflexivity. Qed.
+(* the loop really renames, and the one used-names set spans the fields: a_0_1 is taken when field 1
+   asks for a_0 + "_1" *)
 Example C14_name_loop_example :
   format_variable_name 0 "a" ["a_0"] = Some "a_0_1" /\
-  format_variable_name 0 "a" ["a_0_1"; "a_0"] = Some "a_0_2".
+  format_variable_name 1 "a_0" ["a_0_1"; "a_0"] = Some "a_0_1_1".
 Proof. vm_compute. split; reflexivity. Qed.
